@@ -40,6 +40,9 @@ pub struct Case {
     pub to: Fmt,
     pub inputs: Vec<Input>,
     pub stdin: Vec<u8>,
+    /// None: standard input is a pipe. Some(prefix): it is a regular file that
+    /// holds prefix + stdin, with the file offset already past the prefix.
+    pub stdin_file_prefix: Option<Vec<u8>>,
 }
 
 fn content(rng: &mut Rng, cl: &mut Classes) -> (Vec<u8>, &'static str) {
@@ -103,7 +106,18 @@ pub fn gen_case(seed: u64, idx: usize, acc: &mut Acc) -> Case {
         }
         inputs.push(Input { name: format!("in{i}{ext}"), kind, content: bytes });
     }
-    Case { from, to, inputs, stdin }
+    // standard input as a regular file (shell redirection), also with bytes before the current offset
+    let stdin_file_prefix = match rng.below(6) {
+        0 => Some(vec![]),
+        1 => Some((*rng.pick(&[&b"{\"skipped\": true}\n"[..], b"[0]", b"x", b"--- skipped\n", b"\x93\x01\x02\x03"])).to_vec()),
+        2 => {
+            // a whole page or buffer of earlier bytes
+            let n = *rng.pick(&[4096usize, 8192, 5000]);
+            Some(vec![b'\n'; n])
+        }
+        _ => None,
+    };
+    Case { from, to, inputs, stdin, stdin_file_prefix }
 }
 
 pub fn judge(case: &Case, acc: &mut Acc) {
@@ -146,7 +160,18 @@ pub fn judge(case: &Case, acc: &mut Acc) {
             fifo_threads.push(procmon::feed_fifo(sc.path().join(&inp.name), inp.content.clone()));
         }
     }
-    let out = procmon::run(Run { bin: &procmon::release_bin(), argv: argv.clone(), cwd: sc.path(), stdin: StdinKind::Bytes(case.stdin.clone()), stdout: StdoutKind::Pipe, wall_secs: 60, cpu_secs: 20 });
+    let stdin = match &case.stdin_file_prefix {
+        None => StdinKind::Bytes(case.stdin.clone()),
+        Some(prefix) => {
+            if case.inputs.iter().any(|i| i.kind == "stdin") {
+                acc.count(if prefix.is_empty() { "stdin_is_regular_file_at_offset_0" } else { "stdin_is_regular_file_at_later_offset" });
+            }
+            let mut whole = prefix.clone();
+            whole.extend_from_slice(&case.stdin);
+            StdinKind::FileAtOffset(whole, prefix.len() as u64)
+        }
+    };
+    let out = procmon::run(Run { bin: &procmon::release_bin(), argv: argv.clone(), cwd: sc.path(), stdin, stdout: StdoutKind::Pipe, wall_secs: 60, cpu_secs: 20 });
     for inp in &exp.inputs {
         acc.count(&format!("resolved_{}_{}", inp.1, inp.2));
     }
@@ -163,7 +188,7 @@ pub fn judge(case: &Case, acc: &mut Acc) {
     if let Err(e) = climodel::judge_run(&out, &exp) {
         acc.violation(Violation {
             sig: format!("{}", ev::truncate(&crate::c02_mask(&e), 90)),
-            case: json!({"from": case.from.map(|f| f.name()), "to": case.to.name(), "stdin_hex": hex(&case.stdin), "inputs": case.inputs.iter().map(|i| json!({"name": i.name, "kind": i.kind, "content_hex": hex(&i.content), "content_preview": preview(&i.content, 80)})).collect::<Vec<_>>()}),
+            case: json!({"from": case.from.map(|f| f.name()), "to": case.to.name(), "stdin_hex": hex(&case.stdin), "stdin_file_prefix_hex": case.stdin_file_prefix.as_ref().map(|p| hex(p)), "inputs": case.inputs.iter().map(|i| json!({"name": i.name, "kind": i.kind, "content_hex": hex(&i.content), "content_preview": preview(&i.content, 80)})).collect::<Vec<_>>()}),
             observed: format!("{e}; argv {:?}; status {}, stdout [{}], stderr [{}]", argv, out.status.show(), preview(&out.stdout, 120), preview(&out.stderr, 160)),
             expected: format!("exit {} ({}); inputs resolved as {:?}", exp.exit, exp.why, exp.inputs),
         });
@@ -207,9 +232,9 @@ pub fn run(ctx: &Ctx) -> i32 {
         judge(&case, acc);
     });
     strace_sample(&mut acc);
-    let rule = format!("{} invocations: -f absent or each format x 1-3 inputs, each a regular file / FIFO / '-' (also twice) / directory / missing file, named with every extension in random letter case, multi-dot, none or misleading, holding content of each format (1-3 generated documents), content valid in several formats, or invalid content, x all targets; expected stdout and exit status computed by the library in the matching supply mode; distinct non-trivial = distinct invocations", n);
+    let rule = format!("{} invocations: -f absent or each format x 1-3 inputs, each a regular file / FIFO / '-' (also twice; standard input a pipe, or a regular file at offset 0 or past earlier bytes) / directory / missing file, named with every extension in random letter case, multi-dot, none or misleading, holding content of each format (1-3 generated documents), content valid in several formats, or invalid content, x all targets; expected stdout and exit status computed by the library in the matching supply mode; distinct non-trivial = distinct invocations", n);
     ev::finish(
-        Finish { ctx, level: "exploration", rule, assumptions: vec!["document-less YAML regular files are kept out (recorded C02 finding)".into(), "strace counters are evidence that both supply modes were really observed, not an oracle".into()], extra: serde_json::Map::new(), exhaustive: false, min_distinct: 1000, must_reach: vec![("input_kind_fifo".into(), 200), ("input_kind_stdin".into(), 200), ("input_kind_regular".into(), 1000), ("extension_with_upper_case".into(), 500), ("extension_kind_multi_dot".into(), 200), ("stdin_named_twice".into(), 20), ("resolved_detect_slice".into(), 100), ("resolved_detect_reader".into(), 100)] },
+        Finish { ctx, level: "exploration", rule, assumptions: vec!["document-less YAML regular files are kept out (recorded C02 finding)".into(), "strace counters are evidence that both supply modes were really observed, not an oracle".into()], extra: serde_json::Map::new(), exhaustive: false, min_distinct: 1000, must_reach: vec![("input_kind_fifo".into(), 200), ("input_kind_stdin".into(), 200), ("input_kind_regular".into(), 1000), ("extension_with_upper_case".into(), 500), ("extension_kind_multi_dot".into(), 200), ("stdin_named_twice".into(), 20), ("resolved_detect_slice".into(), 100), ("resolved_detect_reader".into(), 100), ("stdin_is_regular_file_at_later_offset".into(), 100), ("stdin_is_regular_file_at_offset_0".into(), 50)] },
         acc,
     )
 }
@@ -228,7 +253,7 @@ pub fn replay(v: &Value) -> i32 {
         inputs.push(Input { name: i["name"].as_str().unwrap_or("x").into(), kind, content: i["content_hex"].as_str().and_then(unhex).unwrap_or_default() });
     }
     let Some(to) = c["to"].as_str().and_then(Fmt::parse) else { return 2 };
-    let case = Case { from: c["from"].as_str().and_then(Fmt::parse), to, inputs, stdin: c["stdin_hex"].as_str().and_then(unhex).unwrap_or_default() };
+    let case = Case { from: c["from"].as_str().and_then(Fmt::parse), to, inputs, stdin: c["stdin_hex"].as_str().and_then(unhex).unwrap_or_default(), stdin_file_prefix: c["stdin_file_prefix_hex"].as_str().and_then(unhex) };
     let mut acc = Acc::default();
     judge(&case, &mut acc);
     if acc.vio_count > 0 {
